@@ -63,10 +63,10 @@ def _decode_max_row_count(value: typing.Optional[str]) -> typing.Optional[typing
   if isinstance(value, str) and value.upper() == "MNR":
     return "MNR"
 
-  if isinstance(value, int):
+  if isinstance(value, int) and not isinstance(value, bool) and value > 0:
     return value
 
-  raise ValueError(f"Invalid max_row_count '{value}' value. Expect: 'MNR' or integer.")
+  raise ValueError(f"Invalid max_row_count '{value}' value. Expect: 'MNR' or a positive integer.")
 
 @dataclass
 class STLReaderConfiguration(ModuleConfiguration):
